@@ -1,8 +1,9 @@
 import H2V.Model.ConnSend
 /-
-  Connection-level model, part 7 — mirror of `src/proto/streams/recv.rs` (client side; the
-  server-only branches — `pending_accept`, `:protocol`, the 431 answer — are kept where they are a
-  line or two, PUSH_PROMISE handling is not modelled).
+  Connection-level model, part 7 — mirror of `src/proto/streams/recv.rs`, both roles.
+  `server::Peer::convert_poll_message` is here too (`convertPollMessageServer`): h2's own checks are
+  complete, the URI parsers of the `http` crate are known on a subset only (see ConnNOTES.md §3).
+  `poll_pushed` is not mirrored (no harness op).
   A `task: &mut Option<Waker>` argument is the flag `useTask` (`true` = `&mut actions.task`,
   `false` = `&mut None`).
 -/
@@ -341,6 +342,41 @@ def recvRecvData (s : Streams) (id : Nat) (payload : Bytes) (eos : Bool) (padLen
                 else
                   let s := s.modStream id fun st => { st with pendingRecv := st.pendingRecv ++ [.data payload (!eos)] }
                   (s.modStreamW id Stream.notifyRecv, .ok ())
+
+/-- `Recv::ensure_can_reserve` -/
+def ensureCanReserve (s : Streams) : Except PErr Unit :=
+  if !s.recv.isPushEnabled then .error (PErr.libraryGoAway PROTOCOL_ERROR) else .ok ()
+
+/-- result of `Recv::recv_push_promise` -/
+inductive RecvPushRes where
+  | ok
+  | err (e : PErr)
+  | unsupported
+  deriving Repr
+
+/-- `Recv::recv_push_promise(frame, stream)`; `id` = key of the promised stream, `h` = the request
+    head carried by the frame (`h.sid` is the promised id) -/
+def recvRecvPushPromise (s : Streams) (id : Nat) (h : HeadersIn) : Streams × RecvPushRes :=
+  match (s.stream id).state.reserveRemote with
+  | (_, .error e) => (s, .err e)
+  | (st', .ok _) =>
+    let s := s.modStream id fun st => { st with state := st' }
+    if h.isOverSize then (s, .err (PErr.libraryReset h.sid PROTOCOL_ERROR))
+    else
+      match convertPollMessageServer h with
+      | .malformed => (s, .err (PErr.libraryReset h.sid PROTOCOL_ERROR))
+      | .unsupported => (s, .unsupported)
+      | .ok method uri =>
+        -- `PushPromise::validate_request`
+        let clOk := match h.fields.find? (fun f => f.1 == Http.str "content-length") with
+          | some (_, v :: _) => parseU64 v == some 0
+          | _ => true
+        let safe := method == Http.str "GET" || method == Http.str "HEAD"
+        if !clOk || !safe then (s, .err (PErr.libraryReset h.sid PROTOCOL_ERROR))
+        else
+          let s := s.modStream id fun st => { st with pendingRecv := st.pendingRecv ++ [.request method uri h.fields] }
+          let s := s.modStreamW id Stream.notifyRecv
+          (s.modStreamW id Stream.notifyPush, .ok)
 
 /-- `Recv::next_incoming(store)` -/
 def recvNextIncoming (s : Streams) : Streams × Option Nat := s.qPop .pendingAccept
